@@ -131,8 +131,10 @@ def run(repo, res):
                 'and not loaded must raise ImportError' if not loaded else 'but loaded must be served from sys.modules',
                 exc or result)
         elif not first_true.endswith('.py'):
-            ok = ok_order and exc is None and (chosen is None)
-            msg = 'a compiled module must be imported, not parsed (got %s, imported %s)' % (result, imported)
+            wrapped = result.attrs.get('module') if isinstance(result, Obj) else None
+            ok = ok_order and exc is None and (chosen is None) and getattr(wrapped, 'name', 'pkg.mod') == 'pkg.mod'
+            msg = 'a compiled module must be imported, not parsed, and the module analysed must be pkg.mod itself (__import__ returns ' \
+                  'the top-level package): got %s wrapping %s, imported %s' % (result, wrapped, imported)
         else:
             ok = ok_order and exc is None and chosen == first_true
             msg = 'the first existing file in search order is %s but get_module analyses %s (probes: %s)' % (
